@@ -216,9 +216,9 @@ Fixpoint psteps (np : Z) (fuel : nat) (l : list Z) : option (list (op * wobs)) :
 Fixpoint number {A} (i : Z) (l : list A) : list (Z * A) :=
   match l with [] => [] | x :: r => (i, x) :: number (i + 1) r end.
 
-Definition pcfg : P cfg :=
+Definition pcfg (v : Z) : P cfg :=
   ver <- pint ;;
-  if negb (ver =? 13) then (fun _ => None) else
+  if negb (ver =? v) then (fun _ => None) else
   np <- pint ;;
   if (np <? 1) || (64 <? np) then (fun _ => None) else
   kinds <- prep pint (Z.to_nat np) ;;
@@ -228,7 +228,7 @@ Definition pcfg : P cfg :=
   pret (mkCfg np (map fst (filter (fun x => zbool (snd x)) (number 1 kinds))) maxp pcap tmo (number 1 conns) init).
 
 Definition decode (l : list Z) : option (cfg * list (op * wobs)) :=
-  match pcfg l with
+  match pcfg 13 l with
   | Some (g, r) => match psteps (g_np g) (S (length r)) r with Some t => Some (g, t) | None => None end
   | None => None
   end.
@@ -289,7 +289,7 @@ Fixpoint conform_run (g : cfg) (s : sys) (i : Z) (tr : list (op * wobs)) : list 
            else conform_run g s' (i + 1) r
   end.
 
-Definition conform_case (l : list Z) : list Z :=
+Definition conform_trace_case (l : list Z) : list Z :=
   match decode l with
   | Some (g, tr) => conform_run g (init_sys g) 0 tr
   | None => [ERR_MALFORMED; 0]
@@ -471,7 +471,7 @@ Definition mon_init (g : cfg) : mon := mkMon [] [] (dump_all (g_np g) (init_ps g
 Definition init_wf (g : cfg) : bool :=
   forallb (fun x => negb (snd x =? ConnectedAddrTTL) && (0 <? snd x)) (g_init g).
 
-Definition monitor_case (l : list Z) : list Z :=
+Definition monitor_trace_case (l : list Z) : list Z :=
   match decode l with
   | Some (g, tr) => if init_wf g then mon_run g (mon_init g) 0 tr else [ERR_MALFORMED; 1]
   | None => [ERR_MALFORMED; 0]
@@ -486,4 +486,73 @@ Fixpoint model_trace (g : cfg) (s : sys) (ops : list op) : list (op * wobs) :=
   match ops with
   | [] => []
   | o :: r => let '(s', mo) := gstep g s o in (o, obs_of g s' mo) :: model_trace g s' r
+  end.
+
+(* ---- race cases ------------------------------------------------------------------------
+   14 <configuration as above> NOPS op*NOPS dump_1..dump_NP
+   A history executed with real goroutines: a push whose consumption races
+   with the swarm dropping a connection and its Disconnected notification.
+   [op*] (operations without observations) is its linearisation under addrMu —
+   the consumption, then the removal, then the notification; only the final
+   peerstore contents are observed. *)
+Fixpoint run (g : cfg) (s : sys) (ops : list op) : sys :=
+  match ops with [] => s | o :: r => run g (fst (gstep g s o)) r end.
+
+Definition decode_race (l : list Z) : option (cfg * list op * list pdump) :=
+  match pcfg 14 l with
+  | Some (g, r) =>
+      match (ops <- pcount pop ;; d <- prep ppdump (Z.to_nat (g_np g)) ;; pret (ops, d)) r with
+      | Some ((ops, d), []) => Some (g, ops, d)
+      | _ => None
+      end
+  | None => None
+  end.
+
+Fixpoint orders_ok (g : cfg) (s : sys) (ops : list op) : bool :=
+  match ops with
+  | [] => true
+  | o :: r => match o with ODisconnected c ord => order_ok g s c ord | _ => true end
+              && orders_ok g (fst (gstep g s o)) r
+  end.
+
+Definition conform_race (g : cfg) (ops : list op) (final : list pdump) : list Z :=
+  let s := run g (init_sys g) ops in
+  if cap_binds g s then []
+  else if negb (orders_ok g (init_sys g) ops) then [ERR_MISMATCH; zlen ops; 1]
+  else let d := first_diff 1 (dump_all (g_np g) (s_ps s)) final in
+       if d =? 0 then [] else [ERR_MISMATCH; zlen ops; 6; d].
+
+(* the swarm's table and the outstanding notifications after the operations *)
+Fixpoint track (g : cfg) (net pend : list Z) (ops : list op) : list Z * list Z :=
+  match ops with
+  | [] => (net, pend)
+  | o :: r => let '(n, p) := mon_net g (mkMon net pend []) o in track g n p r
+  end.
+
+(* the connected lifetime only while a connection exists, judged on the final contents *)
+Definition final_ok (g : cfg) (ops : list op) (final : list pdump) : bool :=
+  let '(net, pend) := track g [] [] ops in
+  forallb (fun q => connected (g_conns g) net q || existsb (fun c => peer_of (g_conns g) c =? q) pend
+                    || (cnt is_conn (nth_dump q final) =? 0))
+          (peers_of (g_np g)).
+
+Definition monitor_race (g : cfg) (ops : list op) (final : list pdump) : list Z :=
+  if final_ok g ops final then [] else [ERR_PROPERTY; zlen ops; 10].
+
+Definition conform_case (l : list Z) : list Z :=
+  match l with
+  | 14 :: _ => match decode_race l with
+               | Some (g, ops, d) => conform_race g ops d
+               | None => [ERR_MALFORMED; 0]
+               end
+  | _ => conform_trace_case l
+  end.
+
+Definition monitor_case (l : list Z) : list Z :=
+  match l with
+  | 14 :: _ => match decode_race l with
+               | Some (g, ops, d) => if init_wf g then monitor_race g ops d else [ERR_MALFORMED; 1]
+               | None => [ERR_MALFORMED; 0]
+               end
+  | _ => monitor_trace_case l
   end.
